@@ -12,6 +12,9 @@ use std::panic::{catch_unwind, AssertUnwindSafe};
 
 mod kinds;
 
+#[global_allocator]
+static ALLOC: kinds::progx::Counting = kinds::progx::Counting;
+
 pub fn unescape(s: &str) -> String {
     let mut out = String::new();
     let mut it = s.chars();
@@ -317,8 +320,13 @@ fn main() {
     // silence the default panic hook: panics are results here
     std::panic::set_hook(Box::new(|_| {}));
     let stdin = std::io::stdin();
-    let stdout = std::io::stdout();
-    let mut out = std::io::BufWriter::new(stdout.lock());
+    // results go to the file named by HX_OUT (default: stdout); what the interpreted programs
+    // print goes to the real stdout and cannot mix with them
+    let sink: Box<dyn Write> = match std::env::var("HX_OUT") {
+        Ok(path) => Box::new(std::fs::File::create(path).unwrap()),
+        Err(_) => Box::new(std::io::stdout()),
+    };
+    let mut out = std::io::BufWriter::new(sink);
     for line in stdin.lock().lines() {
         let line = line.unwrap();
         if line.is_empty() {
